@@ -56,7 +56,7 @@ func genC09(rt *rapid.T) C09Case {
 	}
 	c.Pad = rapid.SampledFrom([]int{0, 0, 40, 300}).Draw(rt, "pad")
 	c.HistoryN = rapid.IntRange(0, 5).Draw(rt, "histn")
-	kind := rapid.SampledFrom([]string{"save", "save", "savepipe", "resave", "search", "search"}).Draw(rt, "kind")
+	kind := rapid.SampledFrom([]string{"save", "save", "savepipe", "resave", "search", "search", "clear"}).Draw(rt, "kind")
 	c.Target = C08Step{Kind: kind}
 	c.Target.Command = quoteS(rapid.SampledFrom(tools).Draw(rt, "tool") + " " + genWord(rt, "w1") + " " + rapid.SampledFrom([]string{"-x", "| sort", "{{.Names}}", "# c", "x"}).Draw(rt, "tail"))
 	c.Target.Desc = quoteS(genWord(rt, "d1") + " " + genWord(rt, "d2") + rapid.SampledFrom([]string{"", ": yes", "\nline2"}).Draw(rt, "dtail"))
@@ -109,6 +109,8 @@ func (c *C09Case) targetArgs(w *pworld) []string {
 	switch t.Kind {
 	case "search":
 		return []string{"search", "--all-platforms", "-d", pMainDB, genSearchWords(c)}
+	case "clear":
+		return []string{"history", "--clear"}
 	case "savepipe":
 		args := []string{"save-pipeline"}
 		for _, k := range unqAll(t.Keywords) {
@@ -257,7 +259,7 @@ func runC09(c C09Case) *Outcome {
 		return fail("crash", "the fault-free run crashed: %s", exitDesc(ref))
 	}
 	newNB, newH := fileOf(ref.Disk, pNotebook), fileOf(ref.Disk, pHistory)
-	isSave := c.Target.Kind != "search"
+	isSave := c.Target.Kind != "search" && c.Target.Kind != "clear"
 	if isSave && !strings.Contains(string(ref.Stdout), "saved successfully!") {
 		o.Skip = true // the target itself is rejected (duplicate flags etc.): nothing to enumerate
 		return o
